@@ -165,6 +165,9 @@ PROGRAMS = [
     ("call_in_loop", "def g(x: int) -> int:\n    return x + 1\n\ndef f(a: int, b: int) -> int:\n    s = 0\n    for i in range(g(a), g(b)):\n        s = s + g(i)\n    return s\n"),
     ("float_arith", "def f(a: float, b: float) -> float:\n    return (a + b) * 0.5 - a * b\n"),
     ("float_div", "def f(a: float, b: float) -> float:\n    return a / (b * b + 1.0)\n"),
+    ("bool_chain3", "def f(a: int, b: int) -> int:\n    r = 0\n    if a > 0 and b > 0 and a != b:\n        r = r + 1\n    if a < 0 or b < 0 or a == b:\n        r = r + 10\n    if a > 1 and (b > 1 or a > 3) and b != 2:\n        r = r + 100\n    if a == 9 or b == 9 or a > b or b > 4:\n        r = r + 1000\n    return r\n"),
+    ("while_cond_chain", "def f(a: int, b: int) -> int:\n    i = 0\n    while i < 10 and i != a and i * 2 != b:\n        i = i + 1\n    return i\n"),
+    ("if_nested_else", "def f(a: int, b: int) -> int:\n    r = 0\n    if a > 0:\n        if b > 0:\n            r = 1\n        else:\n            r = 2\n    else:\n        if b > a:\n            r = 3\n    return r * 10 + a\n"),
     ("loop_acc_mul", "def f(a: int, b: int) -> int:\n    p = 1\n    i = 0\n    while i < b:\n        p = p * 3 + a\n        i += 1\n    return p\n"),
 ]
 
